@@ -5,6 +5,7 @@ import (
 	"context"
 	"fmt"
 	"io"
+	"strings"
 	"testing"
 
 	"github.com/256dpi/lungo"
@@ -64,10 +65,16 @@ func genC18(t *rapid.T) bson.D {
 	if rapid.Bool().Draw(t, "zerowrite") {
 		writes = append(writes, int32(0))
 	}
-	life := rapid.SampledFrom([]string{"plain", "plain", "tracked", "tracked", "abort", "delete", "trackedDelete"}).Draw(t, "life")
+	life := rapid.SampledFrom([]string{"plain", "plain", "tracked", "tracked", "abort", "delete", "trackedDelete", "trackedDelete2", "trackedDeleteUnclaimed"}).Draw(t, "life")
+	// the bucket's default chunk size; when it differs from the upload's the
+	// upload overrides it with its own option
+	bucketChunk := c
+	if rapid.IntRange(0, 2).Draw(t, "override") == 0 {
+		bucketChunk = rapid.IntRange(1, 12).Draw(t, "bchunk")
+	}
 	// suspend after which writes (tracked only)
 	susp := bson.A{}
-	if life == "tracked" || life == "trackedDelete" {
+	if life == "tracked" || strings.HasPrefix(life, "trackedDelete") {
 		for i := range writes {
 			if rapid.IntRange(0, 3).Draw(t, "susp") == 0 {
 				susp = append(susp, int32(i))
@@ -88,7 +95,7 @@ func genC18(t *rapid.T) bson.D {
 			reads = append(reads, bson.D{{Key: "skip", Value: int32(rapid.IntRange(-c-1, 2*c+1).Draw(t, "sk"))}})
 		}
 	}
-	return bson.D{{Key: "chunk", Value: int32(c)}, {Key: "buffer", Value: int32(b)}, {Key: "length", Value: int32(L)}, {Key: "seed", Value: int32(rapid.IntRange(1, 1000).Draw(t, "seed"))},
+	return bson.D{{Key: "chunk", Value: int32(c)}, {Key: "bucketChunk", Value: int32(bucketChunk)}, {Key: "buffer", Value: int32(b)}, {Key: "length", Value: int32(L)}, {Key: "seed", Value: int32(rapid.IntRange(1, 1000).Draw(t, "seed"))},
 		{Key: "writes", Value: writes}, {Key: "life", Value: life}, {Key: "suspendAfter", Value: susp}, {Key: "abortAt", Value: abortAt}, {Key: "trackedAbort", Value: trackedAbort}, {Key: "reads", Value: reads}}
 }
 
@@ -126,15 +133,24 @@ func runC18(c bson.D, x *Ctx) (err error) {
 	defer env.close()
 	ctx := context.Background()
 	db := env.client.Database("g")
-	bucket := lungo.NewBucket(db, options.GridFSBucket().SetChunkSizeBytes(int32(cs)))
-	tracked := life == "tracked" || life == "trackedDelete" || (life == "abort" && asB(getD(c, "trackedAbort")))
+	bcs := asI(getD(c, "bucketChunk"))
+	if bcs <= 0 {
+		bcs = cs
+	}
+	bucket := lungo.NewBucket(db, options.GridFSBucket().SetChunkSizeBytes(int32(bcs)))
+	var uopts []*options.UploadOptions
+	if bcs != cs {
+		uopts = append(uopts, options.GridFSUpload().SetChunkSizeBytes(int32(cs)))
+		x.Class("upload-overrides-chunk-size")
+	}
+	tracked := life == "tracked" || strings.HasPrefix(life, "trackedDelete") || (life == "abort" && asB(getD(c, "trackedAbort")))
 	if tracked {
 		bucket.EnableTracking()
 	}
 	lungo.VerifUploadBuffer.Store(int64(buf))
 	defer lungo.VerifUploadBuffer.Store(0)
 	id := "file-1"
-	us, e := bucket.OpenUploadStreamWithID(ctx, id, "f")
+	us, e := bucket.OpenUploadStreamWithID(ctx, id, "f", uopts...)
 	if e != nil {
 		return fmt.Errorf("OpenUploadStream failed: %v", e)
 	}
@@ -172,7 +188,7 @@ func runC18(c bson.D, x *Ctx) (err error) {
 			if int64(off)-so >= int64(cs) {
 				return fmt.Errorf("Suspend left %d written bytes (>= one chunk of %d) unflushed", int64(off)-so, cs)
 			}
-			us, e = bucket.OpenUploadStreamWithID(ctx, id, "f")
+			us, e = bucket.OpenUploadStreamWithID(ctx, id, "f", uopts...)
 			if e != nil {
 				return fmt.Errorf("reopening the upload stream failed: %v", e)
 			}
@@ -181,7 +197,7 @@ func runC18(c bson.D, x *Ctx) (err error) {
 				if so == 0 && countOf(markersColl, bson.D{{Key: "files_id", Value: id}}) == 0 {
 					// nothing had been flushed and no marker exists: the
 					// caller restarts the upload from scratch
-					us, e = bucket.OpenUploadStreamWithID(ctx, id, "f")
+					us, e = bucket.OpenUploadStreamWithID(ctx, id, "f", uopts...)
 					if e != nil {
 						return fmt.Errorf("reopening the upload stream failed: %v", e)
 					}
@@ -247,6 +263,24 @@ func runC18(c bson.D, x *Ctx) (err error) {
 	}
 	if e := us.Close(); e != nil {
 		return fmt.Errorf("Close failed: %v", e)
+	}
+	if life == "trackedDeleteUnclaimed" {
+		// a finished upload that is never claimed is deleted: nothing remains
+		if n := countOf(filesColl, bson.D{{Key: "_id", Value: id}}); n != 0 {
+			return fmt.Errorf("tracked upload created the file before ClaimUpload")
+		}
+		if e := bucket.Delete(ctx, id); e != nil {
+			return fmt.Errorf("tracked Delete of an unclaimed upload failed: %v", e)
+		}
+		if e := bucket.Cleanup(ctx, 0); e != nil {
+			return fmt.Errorf("Cleanup failed: %v", e)
+		}
+		if n := countOf(chunksColl, bson.D{{Key: "files_id", Value: id}}) + countOf(filesColl, bson.D{{Key: "_id", Value: id}}) + countOf(markersColl, bson.D{}); n != 0 {
+			return fmt.Errorf("%d documents (file / chunks / markers) left behind after deleting the unclaimed upload", n)
+		}
+		x.Class("life:" + life)
+		x.NonTrivial()
+		return nil
 	}
 	if tracked {
 		if n := countOf(filesColl, bson.D{{Key: "_id", Value: id}}); n != 0 {
@@ -359,16 +393,22 @@ func runC18(c bson.D, x *Ctx) (err error) {
 		if e := bucket.Delete(ctx, id); e != nil {
 			return fmt.Errorf("Delete failed: %v", e)
 		}
-	case "trackedDelete":
+	case "trackedDelete", "trackedDelete2":
 		if e := bucket.Delete(ctx, id); e != nil {
 			return fmt.Errorf("tracked Delete failed: %v", e)
+		}
+		if life == "trackedDelete2" {
+			// deleting again before the cleanup ran is harmless
+			if e := bucket.Delete(ctx, id); e != nil {
+				return fmt.Errorf("second tracked Delete failed: %v", e)
+			}
 		}
 		if e := bucket.Cleanup(ctx, 0); e != nil {
 			return fmt.Errorf("Cleanup failed: %v", e)
 		}
 	}
-	if life == "delete" || life == "trackedDelete" {
-		if n := countOf(chunksColl, bson.D{{Key: "files_id", Value: id}}) + countOf(filesColl, bson.D{{Key: "_id", Value: id}}) + countOf(markersColl, bson.D{{Key: "files_id", Value: id}}); n != 0 {
+	if life == "delete" || life == "trackedDelete" || life == "trackedDelete2" {
+		if n := countOf(chunksColl, bson.D{{Key: "files_id", Value: id}}) + countOf(filesColl, bson.D{{Key: "_id", Value: id}}) + countOf(markersColl, bson.D{}); n != 0 {
 			return fmt.Errorf("%d documents (file / chunks / markers) left behind after deleting the file", n)
 		}
 	}
